@@ -112,4 +112,16 @@ PROPS = {
         "rule": CRASH_RULE + " C14: every event index of the chosen operations completes with EIO, once and persistently (writes fail at completion, fsync / resize / unlink at the call); the child reports the result of the call and is_poisoned, then the directory is reopened. Two fixed-seed corpus runs replay the histories that exposed F2 and F8.",
         "trusted_base": DISK_TB, "assumptions": DISK_ASSUME + ["bucket exhaustion is exercised by the API histories with small tables (not yet at every allocation index)"],
     },
+    "C10": {
+        "runs": DB_SCN(["reopen-resurrects-pruned-delta", "rollback-all-then-reopen"]) + [DB("reopen", 200, 2000, nops=18), DB("reopen", 6, 60, nops=16, big=True, scale=50, shards_q=6), DB("rollback", 60, 600, nops=16),
+                 CRASH("crash", "reopen", 2, 20, steps=1, shards_q=2)],
+        "rule": DB_RULE + " C10 focus: the handle is dropped and reopened (with an independently drawn runtime configuration: workers, cache sizes, io workers, warm-up, prepopulation, upper levels) at random positions, up to half of all steps; after every reopen root, sync_seqn, sampled values, hash_table_utilization().occupied (must equal the pre-close value) and all later commits / rollbacks are compared with a model that ignores close/open.",
+        "trusted_base": API_TB, "assumptions": API_ASSUME + ["open retried for up to 5 s when the old handle's directory lock is still held by a background thread (that delay is C20's subject)"],
+    },
+    "C13": {
+        "runs": [{"cmd": "db-matrix", "mode": "api", "args": ["--focus", "general", "--nops", "12", "--variants", "8"], "cases": {"quick": 40, "thorough": 400}, "shards": {"quick": 8, "thorough": 16}},
+                 {"cmd": "db-matrix", "mode": "api", "args": ["--focus", "kv", "--nops", "12", "--variants", "5", "--scale", "60"], "cases": {"quick": 4, "thorough": 40}, "shards": {"quick": 4, "thorough": 16}}],
+        "rule": "cases = generated histories, each executed under 5-8 configurations (commit_concurrency in {1,2,3,4,5,7,8,16,33,64}, warm_up on/off, page cache 1..256 MiB, leaf cache 1..256 MiB, io_workers 1..3, prepopulation, upper levels 0..3, hashtable_buckets in {4096,16384,64000}, different bitbox seeds; the runtime configuration also changes at every reopen); EVERY protocol line (roots, values, proofs byte-for-byte, commit / rollback verdicts, seqn) must be identical across configurations and equal to the configuration-free Lean model. distinct & non-trivial = (history, configuration) pairs beyond the first configuration that completed identically.",
+        "trusted_base": API_TB, "assumptions": ["thread interleavings are whatever the runs happen to exhibit (sampled, not enumerated)", "sha2 hasher variant not exercised (engine is instantiated with Blake3)"],
+    },
 }
